@@ -287,11 +287,11 @@ Inductive mv : option N -> sconn -> sconn -> Prop :=
     mv None c (close_stream c x)
 | mv_done_gone c sid s rest : sc_sl_done c = false -> take_stream (sc_gone c) sid = Some (s, rest) ->
     mv (Some sid) c (release_stream (upd_gone c rest) (set_flags s (st_responded s) false true))
-| mv_returned c old x : sc_sl_done c = false -> strms_search (sc_strms c) (st_id x) = Some old ->
-    take_stream (sc_gone c) (st_id x) = None ->
+| mv_returned c c1 old x : sc_sl_done c = false -> lite c c1 ->       (* c1: the response has been queued *)
+    strms_search (sc_strms c) (st_id x) = Some old -> take_stream (sc_gone c) (st_id x) = None ->
     st_orig x = st_orig old -> st_handlerRunning old = true -> st_handlerRunning x = false ->
     (st_responded old = true -> st_responded x = true) -> (Q old -> Q x) ->
-    mv (Some (st_id x)) c (put c x)
+    mv (Some (st_id x)) c (put c1 x)
 | mv_brk c : sc_sl_done c = false -> mv None c (fst (brk c))
 | mv_fatal c l extra : sc_sl_done c = false -> Forall2 sloc (sc_strms c ++ extra) l ->
     (extra = [] \/ exists s, extra = [s] /\ st_orig s <> KHeaders /\ st_handlerRunning s = false /\ st_responded s = false) ->
@@ -878,15 +878,19 @@ Proof.
   cbn [fst snd] in *. split; [eapply sloc_trans; [apply sloc_set_snd | exact S] | auto].
 Qed.
 
+(* EvDone: nothing happens (no handler of sid is known to run), or the first move is the return of sid's handler *)
 Theorem mvs_sl_done c sid r : sc_sl_done c = false ->
-  fst (sl_done enc_field cfg c sid r) = c \/ mvs [sid] c (fst (sl_done enc_field cfg c sid r)).
+  (fst (sl_done enc_field cfg c sid r) = c /\ take_stream (sc_gone c) sid = None /\
+   forall s, strms_search (sc_strms c) sid = Some s -> st_handlerRunning s = false) \/
+  (exists b, mv (Some sid) c b /\ mvs [] b (fst (sl_done enc_field cfg c sid r))).
 Proof.
   intro Hd. unfold sl_done.
   destruct (take_stream (sc_gone c) sid) as [[s rest]|] eqn:TS.
-  { right. cbn [cont fst]. apply (mvs_one (Some sid)). apply mv_done_gone; assumption. }
-  destruct (strms_search (sc_strms c) sid) as [s|] eqn:SS; [|left; reflexivity].
-  destruct (negb (st_handlerRunning s)) eqn:HR; [left; reflexivity|]. right.
-  apply negb_false_iff in HR.
+  { right. cbn [cont fst]. eexists. split; [apply mv_done_gone; eassumption | constructor]. }
+  destruct (strms_search (sc_strms c) sid) as [s|] eqn:SS; [|left; repeat split; intros; discriminate].
+  destruct (negb (st_handlerRunning s)) eqn:HR.
+  { left. repeat split. intros s' E. inversion E; subst. apply negb_true_iff. assumption. }
+  right. apply negb_false_iff in HR.
   destruct (strms_search_In _ _ _ SS) as [_ Es].
   set (s1 := set_flags s (st_responded s) false (st_abandoned s)).
   pose proof (lite_finish_request _ enc_field c s1 r Hd) as L.
@@ -896,22 +900,20 @@ Proof.
   destruct S as (Si & So & Sr & Sp). cbn [s1 set_flags st_id st_orig st_handlerRunning st_responded] in Si, So, Sr, Sp.
   assert (RET : forall x, st_id x = st_id s2 -> st_orig x = st_orig s2 -> st_handlerRunning x = st_handlerRunning s2 ->
                           (st_responded s2 = true -> st_responded x = true) -> (Q s2 -> Q x) ->
-                          mv (Some sid) c1 (put c1 x)).
+                          mv (Some sid) c (put c1 x)).
   { intros x Xi Xo Xr Xp XQ. rewrite <- Es, <- Si, <- Xi.
-    apply mv_returned with (old := s); rewrite ?(lite_strms _ _ _ L), ?(lite_gone _ _ _ L), ?Xi, ?Si, ?Es; try assumption; try congruence.
+    apply mv_returned with (old := s); rewrite ?Xi, ?Si, ?Es; try assumption; try congruence.
     - auto.
     - intro Qs. apply XQ, HQ. unfold s1. auto. }
-  change [sid] with ([] ++ [sid] ++ []).
-  eapply mvs_trans; [apply mvs0_lite; eassumption|].
   destruct fin.
   - set (x := set_state s2 SClosed).
-    eapply mvs_trans; [apply (mvs_one (Some sid)), (RET x eq_refl eq_refl eq_refl (fun h => h) (HQ_closed s2))|].
+    exists (put c1 x). split; [apply (RET x eq_refl eq_refl eq_refl (fun h => h) (HQ_closed s2))|].
     eapply mvs0_trans.
     + apply mvs0_one. apply mv_close with (old := x) (x := x); [rewrite sc_sl_done_put; assumption | | apply sloc_refl].
       rewrite sc_strms_put. eapply search_put_same. rewrite (lite_strms _ _ _ L).
       change (st_id x) with (st_id s2). rewrite Si, Es. exact SS.
     + apply mvs_brk_if. rewrite sc_sl_done_close_stream, sc_sl_done_put. assumption.
-  - eapply mvs_trans; [apply (mvs_one (Some sid)), (RET s2 eq_refl eq_refl eq_refl (fun h => h) (fun h => h))|].
+  - exists (put c1 s2). split; [apply (RET s2 eq_refl eq_refl eq_refl (fun h => h) (fun h => h))|].
     apply mvs_brk_if. rewrite sc_sl_done_put. assumption.
 Qed.
 
